@@ -3,6 +3,7 @@
    The middleware list and the catalog database names are regenerated from session.py / constants.py. *)
 From Coq Require Import List Arith NArith Bool String Lia Sorted.
 From MM Require Import Model.Vars Model.Route Proofs.RouteProofs Gen.FactsRoute.
+From MM Require Import Gen.FactsOutline.
 Import ListNotations.
 Open Scope N_scope.
 
@@ -15,6 +16,12 @@ Theorem c13_source_shape :
   session_session_info_schema_middleware_ok = true /\ session_session_use_ok = true /\ utils_find_tables_ok = true /\
   utils_find_dbs_ok = true /\ connection_connection_handle_query_ok = true /\ connection_connection_query_ok = true.
 Proof. repeat split; reflexivity. Qed.
+
+(* the modules this property rests on define the functions, classes, methods and class-level names they defined when the
+   model was transcribed - nothing added (an override, a new helper in the path), removed or renamed *)
+Theorem c13_module_outlines : translated_outline = true /\ outline_session_ok = true /\ outline_intercept_ok = true /\ outline_schema_ok = true /\ outline_utils_ok = true.
+Proof. repeat split; reflexivity. Qed.
+
 
 Notation handle_query := (handle_query catalog_dbs session_middlewares).
 Notation reaches_app := (reaches_app catalog_dbs).
